@@ -5,15 +5,33 @@ package roaring
 // Injected into package roaring with `go test -overlay`; results are written as
 // JSON to $RCHECK_OUT.  Serves C01, C02, C03, C04, C05.
 //
-// Bound (see also the "bound" field of the result): sets of 1..3 containers with
-// keys from {0,1,2,3,0xFFFE,0xFFFF,0x10000,2^32,2^48-2,2^48-1}; container
-// contents drawn from 9 shape families (sparse edge values, random medium
-// arrays, strides around 4096 values / 2048 runs, ranges, full, full minus a
-// few, "2 on 1 off" pairs around 2048 runs, long ranges around 4096, {0,65535});
-// 14 construction flavours (slice / B-tree, optimized, decoded from Pilosa
-// bytes (mapped), remapped, frozen, cloned, imported, decoded from hand-encoded
-// official bytes, trimmed after optimize, result of a union); random operation
-// histories seeded by VERIF_SEED.
+// Bound (the exact numbers are in the "bound" field of the result): sets of 1..3
+// containers (1..6 for official-format inputs, 600..2100 in phase W) with keys
+// from {0,1,2,3,0xFFFE,0xFFFF,0x10000,2^32,2^48-2,2^48-1}; container contents
+// from 9 shape families (sparse edge values 0/1/63/64/4095/4096/65535, random
+// medium arrays, strides around 4096 values and 2048 runs, ranges, full, full
+// minus <= 3, "2 on 1 off" pairs around 2048 runs, long ranges around 4096,
+// {0,65535}); 15 construction flavours (slice / B-tree, optimized, decoded from
+// Pilosa bytes and left mapped, remapped, frozen, cloned, imported, decoded from
+// hand-encoded official bytes, trimmed after optimize, result of a union).
+//
+//   phase A  every read path on every flavour, WriteTo/UnmarshalBinary round trip   (C01, C04)
+//   phase B  24 set operations on (A,B,C) for all 9 encoding pairs, then isolation of
+//            the derived values under source / derived mutation, remap and close     (C01, C03)
+//   phase C  random mutation histories, all reads after every step, frozen / cloned
+//            views, operation log with replay, snapshot and reopen                   (C02, C03, C05)
+//   phase D  hand-encoded official-format bytes: decode (3x), unmodified input,
+//            import set / clear with changed count and rowSet                        (C04)
+//   specials array of exactly 4096 values, full containers, run cookie with 3/4/5
+//            containers, 2^16 containers, value 2^64-1, Shift carry matrix, Flip up
+//            to 2^64-1
+//   phase W  histories on bitmaps wide enough to split B-tree nodes                  (C02)
+//
+// Oracle notes: Shift drops 2^64-1 (no successor); Min on an empty set only has to
+// report "none"; rowSet entries equal to zero are ignored; the empty set is not fed
+// to the official decoder (roaring_internal_test.go pins an error for a header with
+// zero containers); official inputs live in front of 512 KiB of slack so that a
+// decoder running past the end cannot corrupt the heap of the test process.
 
 import (
 	"bytes"
@@ -242,7 +260,7 @@ var rkEdgeLows = []uint16{0, 1, 2, 63, 64, 65, 4095, 4096, 4097, 32767, 32768, 6
 var rkKeysAll = []uint64{0, 1, 2, 3, 0xFFFE, 0xFFFF, 0x10000, 1 << 32, maxContainerKey - 1, maxContainerKey}
 var rkKeysOfficial = []uint64{0, 1, 2, 3, 0xFFFE, 0xFFFF}
 
-const rkKinds = 9
+const rkKinds = 9 // shape families of genLows
 
 // genLows returns a sorted set of low 16-bit values of the given shape family.
 func (r *rkRun) genLows(kind int) ([]uint16, string) {
@@ -349,7 +367,11 @@ func (r *rkRun) genSet(keys []uint64, kinds []int) rkSet {
 		kind := kinds[i]
 		if kind < 0 {
 			// weighted: sparse and ranges are cheap and boundary rich
-			kind = []int{0, 0, 1, 2, 3, 3, 4, 5, 6, 7, 8}[r.rng.Intn(11)]
+			if r.thorough {
+				kind = []int{0, 0, 1, 2, 3, 3, 4, 5, 6, 7, 8}[r.rng.Intn(11)]
+			} else { // quick tier: the 65536-value shapes are expensive to read back
+				kind = []int{0, 0, 0, 1, 1, 2, 2, 3, 3, 3, 4, 5, 6, 6, 7, 7, 8, 8}[r.rng.Intn(18)]
+			}
 		}
 		lows, d := r.genLows(kind)
 		for _, l := range lows {
@@ -503,12 +525,6 @@ func rkEncodePilosa(vals []uint64, unopt bool, flags byte) []byte {
 	return buf.Bytes()
 }
 
-var _ = ioutil.Discard
-var _ = time.Now
-var _ = strconv.Itoa
-var _ = os.Getenv
-var _ = json.Marshal
-
 // ---------------------------------------------------------------- construction flavours
 
 type rkBM struct {
@@ -619,9 +635,6 @@ func (r *rkRun) build(flv string, vals []uint64) (x *rkBM) {
 			data := rkEncodePilosa(vals, r.rng.Intn(2) == 0, 0)
 			if _, _, err := x.b.ImportRoaringBits(data, false, false, 0); err != nil {
 				r.fail([]string{"C04"}, "import-error", "ImportRoaringBits of valid Pilosa bytes fails: "+err.Error())
-			}
-			for i := range data { // the payload buffer is the caller's; the bitmap must not depend on it
-				data[i] = 0xA5
 			}
 		case "slice<-official":
 			x.cls = "official"
@@ -742,6 +755,30 @@ func (r *rkRun) checkLight(props []string, sig string, ctx string, b *Bitmap, wa
 		good = r.cmp(cnt == uint64(len(want)), props, sig+"/count", func() string {
 			return fmt.Sprintf("%s: Count() = %d, set has %d values (Slice agrees with the set: %v)", ctx, cnt, len(want), rkEq(got, want))
 		}) && good
+	})
+	return good
+}
+
+// checkCheap: Count plus membership of the values a mutation touched (and a few others).
+func (r *rkRun) checkCheap(props []string, sig, ctx string, b *Bitmap, want, touched []uint64) bool {
+	good := true
+	r.guard(props, sig, func() {
+		cnt := b.Count()
+		good = r.cmp(cnt == uint64(len(want)), props, sig+"/count", func() string { return fmt.Sprintf("%s: Count() = %d, set has %d values", ctx, cnt, len(want)) })
+		probe := append([]uint64{}, touched...)
+		if len(probe) > 48 { // first, last and a sample of a long list
+			probe = append(probe[:16:16], probe[len(probe)-16:]...)
+			for i := 0; i < 16; i++ {
+				probe = append(probe, touched[r.rng.Intn(len(touched))])
+			}
+		}
+		for i := 0; i < 6 && len(want) > 0; i++ {
+			probe = append(probe, want[r.rng.Intn(len(want))])
+		}
+		for _, v := range probe {
+			got := b.Contains(v)
+			good = r.cmp(got == rkHas(want, v), props, sig, func() string { return fmt.Sprintf("%s: Contains(%d) = %v, set says %v", ctx, v, got, !got) }) && good
+		}
 	})
 	return good
 }
@@ -883,6 +920,9 @@ func (r *rkRun) checkReads(props []string, cls, ctx string, b *Bitmap, want []ui
 			off := []uint64{0, 1 << 16, 5 << 16, 1 << 20, 1 << 40}[r.rng.Intn(5)]
 			if rkCountRange(want, start, end) > 20000 && n != 5 {
 				continue
+			}
+			if (end-start)+off < off || ((end-start)+off)>>16 > maxContainerKey {
+				off = 0 // keep the shifted keys inside the key space
 			}
 			w := rkOffsetRange(want, off, start, end)
 			got := b.OffsetRange(off, start, end).Slice()
@@ -1172,7 +1212,7 @@ func (r *rkRun) binops(A, B, C *rkBM, wa, wb, wc []uint64) []rkDerived {
 }
 
 // mutateBitmap applies one random mutation through the real API and returns the new model and a description.
-func (r *rkRun) mutateBitmap(b *Bitmap, want []uint64, other []uint64) ([]uint64, string) {
+func (r *rkRun) mutateBitmap(b *Bitmap, want []uint64, other []uint64) (nw []uint64, desc string, touched []uint64) {
 	pickIn := func(n int) []uint64 {
 		var out []uint64
 		for i := 0; i < n && len(want) > 0; i++ {
@@ -1201,59 +1241,69 @@ func (r *rkRun) mutateBitmap(b *Bitmap, want []uint64, other []uint64) ([]uint64
 			o.Optimize()
 		}
 		b.UnionInPlace(o)
-		return rkUnion(want, vs), fmt.Sprintf("UnionInPlace(NewBitmap(%v))", vs)
+		return rkUnion(want, vs), fmt.Sprintf("UnionInPlace(NewBitmap(%v))", vs), vs
 	case 0:
 		vs := pickNew(3)
 		_, _ = b.Add(rkCopy(vs)...)
-		return rkUnion(want, rkNorm(vs)), fmt.Sprintf("Add(%v)", vs)
+		return rkUnion(want, rkNorm(vs)), fmt.Sprintf("Add(%v)", vs), vs
 	case 1:
 		vs := pickIn(3)
 		_, _ = b.Remove(rkCopy(vs)...)
-		return rkDiff(want, rkNorm(vs)), fmt.Sprintf("Remove(%v)", vs)
+		return rkDiff(want, rkNorm(vs)), fmt.Sprintf("Remove(%v)", vs), vs
 	case 2:
 		vs := append(pickNew(4), pickIn(2)...)
 		b.DirectAddN(rkCopy(vs)...)
-		return rkUnion(want, rkNorm(vs)), fmt.Sprintf("DirectAddN(%v)", vs)
+		return rkUnion(want, rkNorm(vs)), fmt.Sprintf("DirectAddN(%v)", vs), vs
 	case 3:
 		vs := append(pickIn(4), pickNew(1)...)
 		b.DirectRemoveN(rkCopy(vs)...)
-		return rkDiff(want, rkNorm(vs)), fmt.Sprintf("DirectRemoveN(%v)", vs)
+		return rkDiff(want, rkNorm(vs)), fmt.Sprintf("DirectRemoveN(%v)", vs), vs
 	case 4:
 		vs := rkNorm(append(pickNew(5), pickIn(2)...))
 		data := rkEncodePilosa(vs, r.rng.Intn(2) == 0, 0)
 		_, _, _ = b.ImportRoaringBits(data, false, false, 0)
-		return rkUnion(want, vs), fmt.Sprintf("ImportRoaringBits(set %v)", vs)
+		return rkUnion(want, vs), fmt.Sprintf("ImportRoaringBits(set %v)", vs), vs
 	case 5:
 		vs := rkNorm(append(pickIn(5), pickNew(1)...))
 		data := rkEncodePilosa(vs, r.rng.Intn(2) == 0, 0)
 		_, _, _ = b.ImportRoaringBits(data, true, false, 0)
-		return rkDiff(want, vs), fmt.Sprintf("ImportRoaringBits(clear %v)", vs)
+		return rkDiff(want, vs), fmt.Sprintf("ImportRoaringBits(clear %v)", vs), vs
 	case 6:
 		b.Optimize()
-		return want, "Optimize()"
+		return want, "Optimize()", nil
 	case 7:
 		_, _ = b.WriteTo(ioutil.Discard)
-		return want, "WriteTo(discard)"
+		return want, "WriteTo(discard)", nil
 	default:
 		// remove a whole stretch: every value of one container range
 		if len(want) == 0 {
-			return want, "noop"
+			return want, "noop", nil
 		}
 		base := want[r.rng.Intn(len(want))] &^ 0xFFFF
 		vs := rkCopy(rkSliceRange(want, base, base|0x7FFF))
 		_, _ = b.RemoveN(rkCopy(vs)...)
-		return rkDiff(want, vs), fmt.Sprintf("RemoveN(all %d values in [%d,%d))", len(vs), base, base|0x7FFF)
+		return rkDiff(want, vs), fmt.Sprintf("RemoveN(all %d values in [%d,%d))", len(vs), base, base|0x7FFF), vs
 	}
 }
 
 func (r *rkRun) isolation(A, B *rkBM, wa, wb []uint64, ds []rkDerived) {
 	P := []string{"C03"}
-	checkDs := func(after string, skip int) {
+	// cheap check (count + membership of the touched values) after every single mutation,
+	// full comparison at the end of every stage
+	checkDs := func(after string, skip int, touched []uint64, full bool) {
 		for i, d := range ds {
 			if i == skip {
 				continue
 			}
-			if !r.checkLight(P, "derived-changed:"+strings.SplitN(d.name, "(", 2)[0], fmt.Sprintf("derived value %s (taken from A=%s, B=%s) after %s", d.name, A.flv, B.flv, after), d.b, d.want) {
+			nm := strings.SplitN(d.name, "(", 2)[0]
+			ctx := fmt.Sprintf("derived value %s (taken from A=%s, B=%s) after %s", d.name, A.flv, B.flv, after)
+			var ok bool
+			if full {
+				ok = r.checkLight(P, "derived-changed:"+nm, ctx, d.b, d.want)
+			} else {
+				ok = r.checkCheap(P, "derived-changed:"+nm, ctx, d.b, d.want, touched)
+			}
+			if !ok {
 				ds[i].want = d.b.Slice() // report once
 			}
 		}
@@ -1266,11 +1316,12 @@ func (r *rkRun) isolation(A, B *rkBM, wa, wb []uint64, ds []rkDerived) {
 			src, w, o, nm = B, &wb, wa, "B"
 		}
 		var d string
-		if !r.guard([]string{"C02"}, "source-mutation", func() { *w, d = r.mutateBitmap(src.b, *w, o) }) {
+		var touched []uint64
+		if !r.guard([]string{"C02"}, "source-mutation", func() { *w, d, touched = r.mutateBitmap(src.b, *w, o) }) {
 			return
 		}
 		r.op("%s.%s", nm, d)
-		checkDs("source mutation "+nm+"."+d, -1)
+		checkDs("source mutation "+nm+"."+d, -1, touched, n == 3)
 		r.checkLight([]string{"C02"}, "source-after-mutation", "source "+nm+" ("+src.flv+") after "+d, src.b, *w)
 		r.checkBuf(src, d)
 	}
@@ -1289,21 +1340,33 @@ func (r *rkRun) isolation(A, B *rkBM, wa, wb []uint64, ds []rkDerived) {
 		}
 		A.buf, A.orig = nb, append([]byte{}, nb...)
 		r.checkLight([]string{"C02", "C03"}, "source-after-remap", "source A ("+A.flv+") after snapshot+remap", A.b, wa)
-		checkDs("A snapshot+remap, old storage invalidated", -1)
+		checkDs("A snapshot+remap, old storage invalidated", -1, nil, true)
 	})
 	// 3. mutate each derived value; sources and the other derived values stay
 	for i := range ds {
 		var d string
+		var touched []uint64
 		r.seq = r.seq[:base]
-		if !r.guard([]string{"C02"}, "derived-mutation", func() { ds[i].want, d = r.mutateBitmap(ds[i].b, ds[i].want, wa) }) {
+		if !r.guard([]string{"C02"}, "derived-mutation", func() { ds[i].want, d, touched = r.mutateBitmap(ds[i].b, ds[i].want, wa) }) {
 			continue
 		}
 		r.op("(%s).%s", ds[i].name, d)
 		nm := strings.SplitN(ds[i].name, "(", 2)[0]
+		last := i == len(ds)-1
 		r.checkLight([]string{"C02"}, "derived-after-own-mutation:"+nm, "derived "+ds[i].name+" after its own "+d, ds[i].b, ds[i].want)
-		r.checkLight(P, "source-changed-by-derived:"+nm, fmt.Sprintf("source A (%s) after mutating derived %s with %s", A.flv, ds[i].name, d), A.b, wa)
-		r.checkLight(P, "source-changed-by-derived:"+nm, fmt.Sprintf("source B (%s) after mutating derived %s with %s", B.flv, ds[i].name, d), B.b, wb)
-		checkDs("mutation "+d+" of derived "+ds[i].name, i)
+		for _, s := range []struct {
+			x *rkBM
+			w []uint64
+			n string
+		}{{A, wa, "A"}, {B, wb, "B"}} {
+			ctx := fmt.Sprintf("source %s (%s) after mutating derived %s with %s", s.n, s.x.flv, ds[i].name, d)
+			if last {
+				r.checkLight(P, "source-changed-by-derived:"+nm, ctx, s.x.b, s.w)
+			} else {
+				r.checkCheap(P, "source-changed-by-derived:"+nm, ctx, s.x.b, s.w, touched)
+			}
+		}
+		checkDs("mutation "+d+" of derived "+ds[i].name, i, touched, last)
 		r.checkBuf(A, "mutating derived "+ds[i].name)
 		r.checkBuf(B, "mutating derived "+ds[i].name)
 	}
@@ -1316,7 +1379,7 @@ func (r *rkRun) isolation(A, B *rkBM, wa, wb []uint64, ds []rkDerived) {
 		}
 		s.buf, s.orig = nil, nil
 	}
-	checkDs("closing the sources (mapped storage invalidated)", -1)
+	checkDs("closing the sources (mapped storage invalidated)", -1, nil, true)
 	for i := range ds {
 		r.guard(P, "derived-reads-after-close", func() {
 			r.checkReads(P, "derived-after-close", "derived "+ds[i].name+" after sources closed", ds[i].b, ds[i].want)
@@ -1489,6 +1552,14 @@ func (r *rkRun) importInto(P []string, b *Bitmap, want, payload []uint64, clear,
 			return rn == 1 && len(rkRunsOf(lows))*2 <= len(lows)
 		})
 	}
+	// signatures carry the features of an official encoding that select the decoding path
+	tag := ""
+	if strings.Contains(fd, "cookie 12347, offsets true") {
+		tag += "[run-cookie,>=4-containers]"
+	}
+	if strings.Contains(fd, "array(card 4096)") {
+		tag += "[array-card-4096]"
+	}
 	orig := append([]byte{}, data...)
 	desc := fmt.Sprintf("ImportRoaringBits(%s of %s, clear=%v, log=%v, rowSize=%d)", fd, rkShow(payload), clear, log, rowSize)
 	r.op("%s", desc)
@@ -1499,20 +1570,18 @@ func (r *rkRun) importInto(P []string, b *Bitmap, want, payload []uint64, clear,
 		nw = rkUnion(want, payload)
 	}
 	changed, rowSet, err := b.ImportRoaringBits(data, clear, log, rowSize)
-	r.cmp(err == nil, P, "import-error", func() string { return desc + ": " + err.Error() })
+	r.cmp(err == nil, P, "import-error"+tag, func() string { return desc + ": " + err.Error() })
 	wch := len(nw) - len(want)
 	if clear {
 		wch = len(want) - len(nw)
 	}
-	r.cmp(changed == wch, P, "import-changed-count", func() string { return fmt.Sprintf("%s reports %d changed bits, model %d", desc, changed, wch) })
-	wrs := r.rowSetWant(want, nw, rowSize)
-	r.cmp(rkRowSetEq(rowSet, wrs), P, "import-rowset", func() string { return fmt.Sprintf("%s reports rowSet %v, model %v", desc, rowSet, wrs) })
-	r.cmp(bytes.Equal(data, orig), P, "import-modifies-payload", func() string { return desc + " modified the payload bytes" })
-	if !log {
-		// the payload belongs to the caller: reusing the buffer must not change the bitmap
-		for i := range data {
-			data[i] ^= 0xFF
-		}
+	r.cmp(bytes.Equal(data, orig), P, "import-modifies-payload"+tag, func() string { return desc + " modified the payload bytes" })
+	if got := b.Slice(); !r.cmp(rkEq(got, nw), P, "import-set"+tag, func() string { return desc + ": " + rkFirstDiff(got, nw) }) {
+		nw = got // follow the real bitmap so that one wrong import is not reported again by every later step
+	} else {
+		r.cmp(changed == wch, P, "import-changed-count"+tag, func() string { return fmt.Sprintf("%s reports %d changed bits, model %d", desc, changed, wch) })
+		wrs := r.rowSetWant(want, nw, rowSize)
+		r.cmp(rkRowSetEq(rowSet, wrs), P, "import-rowset"+tag, func() string { return fmt.Sprintf("%s reports rowSet %v, model %v", desc, rowSet, wrs) })
 	}
 	return nw, desc
 }
@@ -1521,6 +1590,9 @@ func (r *rkRun) histStep(h *rkHist) string {
 	P := []string{"C02"}
 	b := h.b
 	pickOps := []string{"Add", "Add", "Remove", "Remove", "AddN", "AddN", "RemoveN", "RemoveN", "Import", "Import", "ImportClear", "Optimize", "Freeze", "Clone", "BulkAddN", "BulkRemoveN", "Snapshot"}
+	if h.logging {
+		pickOps = append(pickOps, "Reopen")
+	}
 	if !h.logging {
 		pickOps = append(pickOps, "DirectAdd", "DirectAddN", "DirectRemoveN", "DirectAdd", "UnionInPlace")
 	}
@@ -1638,6 +1710,36 @@ func (r *rkRun) histStep(h *rkHist) string {
 		r.op("UnionInPlace(NewBitmap(%v), copy of b)", vs)
 		b.UnionInPlace(o, o2)
 		h.want = rkUnion(h.want, vs)
+	case "Reopen":
+		// what reopening a fragment does: decode snapshot+log from the file into a new
+		// bitmap, keep appending to the same file; the old bitmap and its mapping go away
+		data := append(append([]byte{}, h.snap...), h.log.Bytes()...)
+		var nb *Bitmap
+		if r.rng.Intn(4) > 0 {
+			nb = NewFileBitmap()
+		} else {
+			nb = NewBitmap()
+		}
+		r.op("Reopen(b = decode(snapshot+log); keep appending)")
+		err := nb.UnmarshalBinary(data)
+		if !r.cmp(err == nil, []string{"C05"}, "replay-decode-error", func() string { return "reopen: UnmarshalBinary(snapshot+log): " + err.Error() }) {
+			return name
+		}
+		lops, lopN := b.Ops()
+		ops, opN := nb.Ops()
+		r.cmp(ops == lops && opN == lopN, []string{"C05"}, "replay-counters", func() string {
+			return fmt.Sprintf("reopen: decoded (ops,opN) = (%d,%d), live bitmap reported (%d,%d)", ops, opN, lops, lopN)
+		})
+		if h.x.buf != nil {
+			for i := range h.x.buf {
+				h.x.buf[i] = 0x69
+			}
+		}
+		h.snap = append([]byte{}, data...)
+		h.log = &bytes.Buffer{}
+		nb.OpWriter = h.log
+		h.b = nb
+		h.x = &rkBM{b: nb, flv: h.x.flv, cls: "mapped", buf: data, orig: append([]byte{}, data...)}
 	case "Optimize":
 		r.op("Optimize()")
 		b.Optimize()
@@ -1804,6 +1906,7 @@ func (r *rkRun) officialCase(set rkSet, asRun func(i int, k uint16, lows []uint1
 	orig := append([]byte{}, data...)
 	r.seq = []string{fmt.Sprintf("data := %s of %s", desc, set.desc)}
 	r.hit("official:" + strings.SplitN(desc, ",", 3)[0] + fmt.Sprintf(":n>=4=%v", strings.Contains(desc, "offsets true")))
+	firstOK := false
 	for pass, mk := range []func(...uint64) *Bitmap{NewBitmap, NewFileBitmap, NewBitmap} {
 		var d *Bitmap
 		which := []string{"NewBitmap", "NewFileBitmap", "NewBitmap (second decode of the same bytes)"}[pass]
@@ -1821,14 +1924,17 @@ func (r *rkRun) officialCase(set rkSet, asRun func(i int, k uint16, lows []uint1
 				sig = "official-decode-twice" + tag
 			}
 			got := d.Slice()
-			if r.cmp(rkEq(got, set.vals), P, sig, func() string { return fmt.Sprintf("%s decoded into %s: %s", desc, which, rkFirstDiff(got, set.vals)) }) && pass < 2 {
+			if pass == 2 && !firstOK {
+				// the first decode was already wrong: a second one adds nothing
+			} else if r.cmp(rkEq(got, set.vals), P, sig, func() string { return fmt.Sprintf("%s decoded into %s: %s", desc, which, rkFirstDiff(got, set.vals)) }) && pass < 2 {
+				firstOK = firstOK || pass == 0
 				r.checkReads([]string{"C01", "C04"}, "official", desc+" decoded into "+which, d, set.vals)
 				// mutate the decoded bitmap: reads follow, input bytes stay
 				before := append([]byte{}, data...)
 				w := rkCopy(set.vals)
 				for n := 0; n < 3; n++ {
 					var md string
-					if !r.guard([]string{"C02"}, "official-decoded-mutation"+tag, func() { w, md = r.mutateBitmap(d, w, nil) }) {
+					if !r.guard([]string{"C02"}, "official-decoded-mutation"+tag, func() { w, md, _ = r.mutateBitmap(d, w, nil) }) {
 						break
 					}
 					r.op("decoded.%s", md)
@@ -1880,9 +1986,12 @@ func (r *rkRun) officialCase(set rkSet, asRun func(i int, k uint16, lows []uint1
 				wch = -wch
 			}
 			got := T.b.Slice()
-			r.cmp(rkEq(got, nw), P, "official-import-set"+tag, func() string {
+			if !r.cmp(rkEq(got, nw), P, "official-import-set"+tag, func() string {
 				return fmt.Sprintf("%s imported (clear=%v) into %s [%s]: %s", desc, clear, tflv, rkTypes(T.b), rkFirstDiff(got, nw))
-			})
+			}) {
+				copy(data, orig)
+				return // the counts of a wrong import say nothing more
+			}
 			r.cmp(changed == wch, P, "official-import-changed-count"+tag, func() string {
 				return fmt.Sprintf("%s imported (clear=%v) into %s: reports %d changed, model %d", desc, clear, tflv, changed, wch)
 			})
@@ -2028,6 +2137,7 @@ func (r *rkRun) shiftSpecials() {
 	}
 	sort.Strings(ln)
 	sort.Strings(nn)
+	combo := 0
 	for _, base := range []uint64{0, 7, maxContainerKey - 1} {
 		for _, l := range ln {
 			for _, n := range nn {
@@ -2043,7 +2153,11 @@ func (r *rkRun) shiftSpecials() {
 						vals = append(vals, (base+gap)<<16|v)
 					}
 					vals = rkNorm(vals)
-					for _, flv := range []string{"slice", "file+opt", "slice<-pilosa"} {
+					for fi, flv := range []string{"slice", "file+opt", "slice<-pilosa"} {
+						combo++
+						if !r.thorough && combo%3 != fi {
+							continue // quick tier: one flavour per combination, rotating
+						}
 						r.seq = []string{fmt.Sprintf("b := %s {key %d: %s; key %d: %s}", flv, base, l, base+gap, n), "b.Shift(1)"}
 						x := r.build(flv, vals)
 						if x == nil {
@@ -2195,11 +2309,11 @@ func TestRcheckRoaring(t *testing.T) {
 		}
 	}
 	thorough := os.Getenv("VERIF_TIER") == "thorough"
-	nReads, nVar, nRand, nSeq, steps, nOff, nWide, stepsWide := 24, 1, 6, 44, 10, 16, 4, 12
+	nReads, nVar, nRand, nSeq, steps, nOff, nWide, stepsWide := 26, 1, 6, 55, 10, 18, 4, 10
 	if thorough {
-		nReads, nVar, nRand, nSeq, steps, nOff, nWide, stepsWide = 400, 14, 160, 900, 24, 400, 60, 40
+		nReads, nVar, nRand, nSeq, steps, nOff, nWide, stepsWide = 600, 20, 300, 2000, 24, 800, 100, 40
 	}
-	res := &rkResult{Harness: "roaring",
+	res := &rkResult{Harness: "roaring", Failures: []rkFailure{}, Samples: []interface{}{},
 		Rule:  "an evaluation is one comparison of a value returned by the real code with the model; a case is distinct and non-trivial when it is the first to reach a combination (operation or read phase, construction flavour, container encodings of the operands / of the bitmap after the step); counted by that combination key",
 		Bound: fmt.Sprintf("seed %d; container keys %v; 9 shape families per container (edge values 0/1/63/64/4095/4096/65535, strides and pairs around 4096 values and 2048 runs, ranges, full, full minus <=3); flavours %v; phase A %d sets x 5 flavours (all reads + WriteTo/UnmarshalBinary round trip); phase B %d x 9 encoding pairs + %d random triples (24 set operations each, then isolation under source/derived mutation, remap, close); phase C %d histories x %d mutations (2/3 with operation log and replay); phase D %d random official-format encodings + 14 fixed ones, each decoded 3 times and imported set/clear; Shift carry matrix (5 x 12 container shapes x gap 1..2 x 3 flavours); phase W %d histories x %d mutations on bitmaps with 600..2100 containers", seed, rkKeysAll, rkFlavours, nReads, nVar, nRand, nSeq, steps, nOff, nWide, stepsWide)}
 	r := &rkRun{t: t, res: res, rng: rand.New(rand.NewSource(seed)), cover: map[string]bool{}, thorough: thorough}
